@@ -258,6 +258,14 @@ func (g *evGen) seq(cell string, t, d, maxStmts int) string {
 
 func (g *evGen) stmt(d int) string {
 	g.size--
+	if g.ctl && d >= 0 && g.r.Chance(14) {
+		// an exit as a statement, when some target is reachable from here
+		for _, tg := range g.targets {
+			if tg.ok {
+				return g.exitOrCtlKind(tI, max(d, 1), 0)
+			}
+		}
+	}
 	if d <= 0 || g.size <= 0 {
 		return "(vtr " + g.tr() + ")"
 	}
@@ -856,7 +864,11 @@ func (g *evGen) blockExpr(t, d int) string {
 
 // exitOrCtl: an exit to a reachable target, an error, or a control form around a body
 func (g *evGen) exitOrCtl(t, d int) string {
-	switch g.r.Intn(10) {
+	return g.exitOrCtlKind(t, d, g.r.Intn(10))
+}
+
+func (g *evGen) exitOrCtlKind(t, d, kind int) string {
+	switch kind {
 	case 0, 1, 2:
 		// an exit, guarded by a test so that the code after it is not always dead
 		var cand []gtarget
@@ -873,16 +885,23 @@ func (g *evGen) exitOrCtl(t, d int) string {
 		switch tg.kind {
 		case "ret-from", "ret-nil":
 			value := g.sub("return-from.value", func() string {
-				if g.avoid("return-from.value-same-block", tg.kind) {
-					// a return-from to the same block inside the value form: listed pair cell
-					nt := append([]gtarget{}, g.targets...)
-					for i := range nt {
-						if nt[i].name == tg.name && nt[i].kind == tg.kind {
+				// pair cells: inside the value form, an exit to the same block, or to a target established
+				// inside that block (the marker of the outer return wraps the inner exit)
+				nt := append([]gtarget{}, g.targets...)
+				seen := false
+				for i := range nt {
+					if nt[i].name == tg.name && nt[i].kind == tg.kind {
+						seen = true
+						if g.avoid("return-from.value-same-block", tg.kind) {
 							nt[i].ok = false
 						}
+						continue
 					}
-					g.targets = nt
+					if seen && g.avoid("return-from.value-outer-block", nt[i].kind) {
+						nt[i].ok = false
+					}
 				}
+				g.targets = nt
 				return g.expr(t, d-1)
 			})
 			if tg.kind == "ret-from" {
